@@ -26,6 +26,9 @@ typedef struct {
 	void *cond;		/* SHIM_T_WAIT / SHIM_T_WOKEN */
 	int join_target;
 	unsigned long wait_seq;	/* order of arrival in cond_wait (for signal) */
+	int fine;		/* scheduled with SHIM_RUN_FINE: stop at the next fine point */
+	int fine_kind;		/* SHIM_T_FINE: enum shim_fine_kind */
+	int nheld;		/* mutexes held */
 } shim_thread_t;
 
 static shim_thread_t th[SHIM_MAX_THREADS];
@@ -36,6 +39,20 @@ static int last_ran = -1;
 static long nsteps;
 static unsigned long wait_counter;
 static ucontext_t sched_ctx;
+
+/* ---- lock-discipline oracle ---- */
+#define GUARD_MAX_CONDS 8
+static struct {
+	int active;
+	shim_mutex_t *mtx;
+	void *conds[GUARD_MAX_CONDS];
+	int nconds;
+	shim_guard_fn snap;
+	void *ud;
+	unsigned long long last[2];
+	int nviol;
+	char msg[320];
+} guard;
 
 static void die(const char *msg)
 {
@@ -58,6 +75,86 @@ void shim_reset(void)
 	last_ran = -1;
 	nsteps = 0;
 	wait_counter = 0;
+	guard.active = 0;
+	guard.nviol = 0;
+	guard.msg[0] = '\0';
+}
+
+void shim_guard_set(pthread_mutex_t *mtx, pthread_cond_t *const *conds, int nconds,
+		    shim_guard_fn snap, void *ud)
+{
+	int i;
+
+	memset(&guard, 0, sizeof(guard));
+	guard.mtx = (shim_mutex_t *)mtx;
+	for (i = 0; i < nconds && i < GUARD_MAX_CONDS; ++i)
+		guard.conds[i] = (void *)conds[i];
+	guard.nconds = i;
+	guard.snap = snap;
+	guard.ud = ud;
+	if (snap) {
+		guard.last[0] = snap(ud, 0);
+		guard.last[1] = snap(ud, 1);
+	}
+	guard.active = 1;
+}
+
+void shim_guard_clear(void)
+{
+	guard.active = 0;
+}
+
+const char *shim_guard_violation(void)
+{
+	return guard.nviol ? guard.msg : NULL;
+}
+
+int shim_guard_violation_count(void)
+{
+	return guard.nviol;
+}
+
+static void guard_report(const char *what, const char *op)
+{
+	if (guard.nviol++ == 0)
+		snprintf(guard.msg, sizeof(guard.msg), "thread-%d:%s:noticed-at-its-%s:step-%ld", cur, what, op,
+			 nsteps);
+}
+
+enum { G_OTHER = 0, G_SIGNAL = 1 };
+
+/* Called at the entry of every shim operation of the running thread (and at its exit).  Exactly one
+ * thread runs at a time and control changes hands only inside shim operations, so whatever changed
+ * since the previous call was changed by the calling thread, in the code between its previous shim
+ * operation and this one; whether it held the mutex during that stretch is what the mutex says now
+ * (lock / unlock / cond_wait are shim operations themselves). */
+static void guard_check(const char *op, void *obj, int kind)
+{
+	int holds, i;
+
+	if (!guard.active || cur < 0)
+		return;
+	holds = guard.mtx->owner_plus1 == cur + 1;
+	if (guard.snap) {
+		unsigned long long h0 = guard.snap(guard.ud, 0), h1 = guard.snap(guard.ud, 1);
+
+		if (h0 != guard.last[0] && !holds)
+			guard_report("mutex-protected-state-modified-without-the-mutex", op);
+		if (h1 != guard.last[1] && cur != 0)
+			guard_report("submitter-only-state-modified-by-another-thread", op);
+		guard.last[0] = h0;
+		guard.last[1] = h1;
+	}
+	if (kind == G_SIGNAL && !holds) {
+		for (i = 0; i < guard.nconds; ++i) {
+			if (guard.conds[i] == obj) {
+				char w[64];
+
+				snprintf(w, sizeof(w), "cond-%d-signalled-without-the-mutex", i);
+				guard_report(w, op);
+			}
+		}
+	}
 }
 
 int shim_self(void)
@@ -87,6 +184,17 @@ static void to_scheduler(void)
 	/* resumed */
 }
 
+/* fine pre-emption point: honoured only when the thread was scheduled with SHIM_RUN_FINE */
+static void fine_point(int kind)
+{
+	if (cur < 0 || !th[cur].fine)
+		return;
+	th[cur].state = SHIM_T_FINE;
+	th[cur].fine_kind = kind;
+	to_scheduler();
+	th[cur].fine_kind = SHIM_F_NONE;
+}
+
 static void trampoline(int idx)
 {
 	shim_thread_t *t = &th[idx];
@@ -95,6 +203,7 @@ static void trampoline(int idx)
 		t->client(t->arg);
 	else
 		t->fn(t->arg);
+	guard_check("exit", NULL, G_OTHER);
 	t->state = SHIM_T_EXITED;
 	/* never resumed: uc_link returns to the scheduler */
 }
@@ -121,6 +230,7 @@ int shim_pthread_create(pthread_t *out, const pthread_attr_t *a, void *(*fn)(voi
 	int idx;
 
 	(void)a;
+	guard_check("pthread_create", NULL, G_OTHER);
 	if (nth_ >= SHIM_MAX_THREADS)
 		return 11; /* EAGAIN */
 	idx = nth_++;
@@ -147,6 +257,7 @@ int shim_pthread_join(pthread_t t, void **ret)
 			die("pthread_join on a live thread outside shim_run");
 		return 0;
 	}
+	guard_check("pthread_join", NULL, G_OTHER);
 	th[cur].did_op = 1;
 	if (th[idx].state != SHIM_T_EXITED) {
 		th[cur].state = SHIM_T_JOIN;
@@ -168,6 +279,9 @@ int shim_mutex_destroy(pthread_mutex_t *m)
 {
 	shim_mutex_t *sm = (shim_mutex_t *)m;
 
+	guard_check("pthread_mutex_destroy", m, G_OTHER);
+	if (guard.active && guard.mtx == sm)
+		guard.active = 0;	/* the guarded state is about to go away */
 	if (sm->owner_plus1 != 0)
 		die("pthread_mutex_destroy on a locked mutex");
 	return 0;
@@ -185,6 +299,7 @@ int shim_mutex_lock(pthread_mutex_t *m)
 	}
 	if (sm->owner_plus1 == cur + 1)
 		die("recursive pthread_mutex_lock (would deadlock)");
+	guard_check("pthread_mutex_lock", m, G_OTHER);
 	if (th[cur].did_op || sm->owner_plus1 != 0) {
 		th[cur].state = SHIM_T_LOCK;
 		th[cur].want = sm;
@@ -193,6 +308,7 @@ int shim_mutex_lock(pthread_mutex_t *m)
 			die("scheduled a thread whose mutex is held");
 	}
 	sm->owner_plus1 = cur + 1;
+	th[cur].nheld++;
 	th[cur].did_op = 1;
 	return 0;
 }
@@ -207,8 +323,11 @@ int shim_mutex_unlock(pthread_mutex_t *m)
 	}
 	if (sm->owner_plus1 != cur + 1)
 		die("pthread_mutex_unlock by a thread that does not hold the mutex");
+	guard_check("pthread_mutex_unlock", m, G_OTHER);
 	sm->owner_plus1 = 0;
+	th[cur].nheld--;
 	th[cur].did_op = 1;
+	fine_point(SHIM_F_POSTUNLOCK);
 	return 0;
 }
 
@@ -223,6 +342,7 @@ int shim_cond_destroy(pthread_cond_t *c)
 {
 	int i;
 
+	guard_check("pthread_cond_destroy", c, G_OTHER);
 	for (i = 0; i < nth_; ++i) {
 		if ((th[i].state == SHIM_T_WAIT || th[i].state == SHIM_T_WOKEN) && th[i].cond == (void *)c)
 			die("pthread_cond_destroy with waiters");
@@ -238,7 +358,11 @@ int shim_cond_wait(pthread_cond_t *c, pthread_mutex_t *m)
 		die("pthread_cond_wait outside shim_run");
 	if (sm->owner_plus1 != cur + 1)
 		die("pthread_cond_wait without holding the mutex");
+	guard_check("pthread_cond_wait", c, G_OTHER);
+	/* the caller has evaluated its predicate, is not yet a waiter, and still owns the mutex */
+	fine_point(SHIM_F_PREWAIT);
 	sm->owner_plus1 = 0;
+	th[cur].nheld--;
 	th[cur].state = SHIM_T_WAIT;
 	th[cur].cond = (void *)c;
 	th[cur].want = sm;
@@ -247,6 +371,7 @@ int shim_cond_wait(pthread_cond_t *c, pthread_mutex_t *m)
 	if (sm->owner_plus1 != 0)
 		die("scheduled a woken thread whose mutex is held");
 	sm->owner_plus1 = cur + 1;
+	th[cur].nheld++;
 	th[cur].cond = NULL;
 	th[cur].did_op = 1;
 	return 0;
@@ -256,6 +381,8 @@ int shim_cond_broadcast(pthread_cond_t *c)
 {
 	int i;
 
+	guard_check("pthread_cond_broadcast", c, G_SIGNAL);
+	fine_point(SHIM_F_PRESIGNAL);
 	for (i = 0; i < nth_; ++i) {
 		if (th[i].state == SHIM_T_WAIT && th[i].cond == (void *)c)
 			th[i].state = SHIM_T_WOKEN;
@@ -269,6 +396,8 @@ int shim_cond_signal(pthread_cond_t *c)
 {
 	int i, best = -1;
 
+	guard_check("pthread_cond_signal", c, G_SIGNAL);
+	fine_point(SHIM_F_PRESIGNAL);
 	for (i = 0; i < nth_; ++i) {
 		if (th[i].state == SHIM_T_WAIT && th[i].cond == (void *)c) {
 			if (best < 0 || th[i].wait_seq < th[best].wait_seq)
@@ -286,6 +415,7 @@ void shim_yield(void)
 {
 	if (cur < 0)
 		return;
+	guard_check("yield", NULL, G_OTHER);
 	th[cur].state = SHIM_T_READY;
 	to_scheduler();
 }
@@ -300,6 +430,7 @@ static int is_runnable(int i)
 {
 	switch (th[i].state) {
 	case SHIM_T_READY:
+	case SHIM_T_FINE:
 		return 1;
 	case SHIM_T_LOCK:
 	case SHIM_T_WOKEN:
@@ -324,6 +455,8 @@ void shim_get_view(shim_view_t *v)
 		v->runnable[i] = is_runnable(i);
 		v->waiting[i] = th[i].state == SHIM_T_WAIT;
 		v->join_target[i] = th[i].state == SHIM_T_JOIN ? th[i].join_target : -1;
+		v->fine_kind[i] = th[i].state == SHIM_T_FINE ? th[i].fine_kind : SHIM_F_NONE;
+		v->holds[i] = th[i].nheld;
 	}
 }
 
@@ -342,6 +475,10 @@ int shim_run(void (*client)(void *), void *arg, shim_chooser_t chooser, void *ch
 	in_run = 1;
 	nsteps = 0;
 	last_ran = -1;
+	if (guard.active && guard.snap) {
+		guard.last[0] = guard.snap(guard.ud, 0);
+		guard.last[1] = guard.snap(guard.ud, 1);
+	}
 
 	for (;;) {
 		shim_choice_t ch;
@@ -389,6 +526,7 @@ int shim_run(void (*client)(void *), void *arg, shim_chooser_t chooser, void *ch
 				break;
 			}
 			cur = ch.tid;
+			th[cur].fine = ch.kind == SHIM_RUN_FINE;
 			nsteps++;
 			if (swapcontext(&sched_ctx, &th[cur].ctx) != 0)
 				die("swapcontext");
@@ -426,6 +564,11 @@ shim_choice_t shim_list_chooser(const shim_view_t *v, void *ud)
 			c->pos++;
 		}
 		ch.tid = (int)strtol(c->pos, (char **)&c->pos, 10);
+		if (*c->pos == 'f') {
+			if (ch.kind == SHIM_RUN)
+				ch.kind = SHIM_RUN_FINE;
+			c->pos++;
+		}
 		return ch;
 	}
 	c->exhausted_steps++;
@@ -461,6 +604,14 @@ void shim_random_chooser_init(shim_random_chooser_t *c, unsigned long long seed,
 	c->s = seed;
 	c->spur_permille = spur_permille;
 	c->spur_budget = spur_budget;
+	c->fine_permille = 0;
+	c->fine_budget = 0;
+}
+
+void shim_random_chooser_set_fine(shim_random_chooser_t *c, int fine_permille, int fine_budget)
+{
+	c->fine_permille = fine_permille;
+	c->fine_budget = fine_budget;
 }
 
 shim_choice_t shim_random_chooser(const shim_view_t *v, void *ud)
@@ -486,7 +637,13 @@ shim_choice_t shim_random_chooser(const shim_view_t *v, void *ud)
 			cand[n++] = i;
 	ch.kind = SHIM_RUN;
 	ch.tid = n ? cand[rnd_next(&c->s) % (unsigned)n] : -1;
-	if (!n)
+	if (!n) {
 		ch.kind = SHIM_STOP;
+	} else if (c->fine_budget > 0 && c->fine_permille > 0 &&
+		   (int)(rnd_next(&c->s) % 1000) < c->fine_permille) {
+		/* no extra random draw unless fine pre-emptions were asked for: old seeds keep their schedules */
+		c->fine_budget--;
+		ch.kind = SHIM_RUN_FINE;
+	}
 	return ch;
 }
